@@ -443,6 +443,9 @@ pub fn run_case(case_seed: u64, c: &mut Collector) {
 }
 
 pub fn run(args: &Args) -> i32 {
+    if args.extra.get("part").map(|s| s.as_str()) == Some("bounds") {
+        return run_bounds(args);
+    }
     let started = Instant::now();
     if let Some(p) = &args.replay {
         let v: serde_json::Value = serde_json::from_str(&std::fs::read_to_string(p).unwrap_or_default()).unwrap_or_default();
@@ -471,6 +474,248 @@ fn outcome(min: u64) -> Outcome {
         level: "exploration",
         rule: "types constructed from a grammar over the syn::Type forms (paths with global / leading / tail segments and generic, assoc-type, constraint, const-block, lifetime and parenthesized arguments; references, pointers, slices, arrays, tuples, parens, bare fns incl. variadic/extern/HRTB, trait objects, impl trait, macros, qself; depth<=5) with every identifier and lifetime planted at a labelled position; expected = planted uses (plus qself contents for Purpose::Declare) intersected with a random query set that also contains absent and filler names; checked for uses_*/uses_*_cloned, collect_*, syn::Fields / DataStruct / DataEnum / Data / ast::Data / Vec / Option / a user struct through the public macros (= union of members), and GenericsExt. Distinct = (set of forms in the type, purpose, #expected type hits, #expected lifetime hits).".into(),
         assumptions: vec!["a trait path's leading segment is positionally 'an unqualified leading path segment' and is labelled a use; HRTB-bound lifetime names are kept disjoint from the query names".into()],
+        min_nontrivial: min,
+        exhaustive: None,
+        extra: Default::default(),
+    }
+}
+
+// ====================================================================== bounds half
+
+use crate::c06::classify;
+use crate::c10::{Tr, ALL_TR};
+use crate::tok::canon_of;
+
+struct GParam {
+    text: String,
+    kind: u8, // 0 lifetime, 1 type, 2 const
+    name: String,
+    bounds: Vec<String>,
+}
+
+fn bounds_case(case_seed: u64, c: &mut Collector) {
+    let mut rng = Rng::new(case_seed);
+    let tr = *rng.pick(&ALL_TR);
+    // generics
+    let mut params: Vec<GParam> = vec![];
+    for l in ["'a", "'b"] {
+        if rng.coin() {
+            params.push(GParam { text: l.to_string(), kind: 0, name: l.to_string(), bounds: vec![] });
+        }
+    }
+    for t in ["T", "U", "V", "W"] {
+        if rng.chance(3, 5) {
+            let bounds: Vec<String> = match rng.below(4) {
+                0 => vec![],
+                1 => vec!["Clone".into()],
+                2 => vec!["Clone".into(), "?Sized".into()],
+                _ => vec!["::std::fmt::Debug".into(), "'static".into()],
+            };
+            let default = if rng.chance(1, 6) { " = u8" } else { "" };
+            let text = if bounds.is_empty() { format!("{t}{default}") } else { format!("{t}: {}{default}", bounds.join(" + ")) };
+            params.push(GParam { text, kind: 1, name: t.to_string(), bounds });
+        }
+    }
+    if rng.chance(1, 4) {
+        params.push(GParam { text: "const N: usize".into(), kind: 2, name: "N".into(), bounds: vec![] });
+    }
+    let declared: BTreeSet<String> = params.iter().filter(|p| p.kind == 1).map(|p| p.name.clone()).collect();
+    let where_clause = if !declared.is_empty() && rng.chance(1, 3) {
+        let t = declared.iter().next().unwrap().clone();
+        format!(" where {t}: Default, Vec<{t}>: Clone")
+    } else {
+        String::new()
+    };
+    let gtext = if params.is_empty() { String::new() } else { format!("<{}>", params.iter().map(|p| p.text.clone()).collect::<Vec<_>>().join(", ")) };
+    // body
+    let mut expected: BTreeSet<String> = BTreeSet::new();
+    let mut forms: BTreeSet<&'static str> = BTreeSet::new();
+    let mut field = |rng: &mut Rng, name: Option<&str>, variant_skipped: bool, expected: &mut BTreeSet<String>, forms: &mut BTreeSet<&'static str>| -> String {
+        let mut p = Planted::default();
+        let depth = rng.range(0, 3);
+        let t = ty(rng, depth, &mut p);
+        let skip = match rng.below(8) {
+            0 => Some("skip"),
+            1 => Some("skip = true"),
+            2 => Some("skip = false"),
+            _ => None,
+        };
+        let other = match rng.below(6) {
+            0 => Some("default"),
+            1 => Some("with = conv"),
+            2 => Some("multiple"),
+            3 => Some("map = f"),
+            _ => None,
+        };
+        let skipped = matches!(skip, Some("skip") | Some("skip = true"));
+        if !skipped && !variant_skipped {
+            expected.extend(p.ty.iter().filter(|n| declared.contains(*n)).cloned());
+        }
+        forms.extend(p.forms.iter().copied());
+        forms.insert(if skipped { "field-skipped" } else { "field-parsed" });
+        let opts: Vec<&str> = skip.into_iter().chain(other).collect();
+        let attr = if opts.is_empty() { String::new() } else { format!("#[darling({})] ", opts.join(", ")) };
+        match name {
+            Some(n) => format!("{attr}{n}: {t}"),
+            None => format!("{attr}{t}"),
+        }
+    };
+    let names = ["fa", "fb", "fc", "fd"];
+    let cattr = if tr != Tr::Meta { "#[darling(attributes(x))] " } else { "" };
+    let is_enum = tr == Tr::Meta && rng.chance(1, 3);
+    let src = if is_enum {
+        let nv = rng.range(1, 4);
+        let mut vs = vec![];
+        for i in 0..nv {
+            let vskip = rng.chance(1, 5);
+            let vattr = if vskip { "#[darling(skip)] " } else { "" };
+            forms.insert(if vskip { "variant-skipped" } else { "variant-parsed" });
+            let body = match rng.below(3) {
+                0 => String::new(),
+                1 => format!("({})", field(&mut rng, None, vskip, &mut expected, &mut forms)),
+                _ => {
+                    let k = rng.range(1, 3);
+                    format!(" {{ {} }}", (0..k).map(|j| field(&mut rng, Some(names[j]), vskip, &mut expected, &mut forms)).collect::<Vec<_>>().join(", "))
+                }
+            };
+            vs.push(format!("{vattr}V{i}{body}"));
+        }
+        format!("enum Recv{gtext}{where_clause} {{ {} }}", vs.join(", "))
+    } else {
+        let k = rng.range(0, 4);
+        let mut fs: Vec<String> = (0..k).map(|j| field(&mut rng, Some(names[j]), false, &mut expected, &mut forms)).collect();
+        if tr != Tr::Meta && rng.coin() {
+            // a magic field never takes part in the bound, whatever its type says
+            forms.insert("magic-field");
+            fs.push(format!("ident: Wrapper<{}>", declared.iter().next().cloned().unwrap_or_else(|| "u8".into())));
+        }
+        format!("{cattr}struct Recv{gtext}{where_clause} {{ {} }}", fs.join(", "))
+    };
+    let Ok(di) = syn::parse_str::<syn::DeriveInput>(&src) else {
+        c.discarded += 1;
+        return;
+    };
+    c.eval();
+    let name = tr.name();
+    let mut fail = |c: &mut Collector, class: &str, what: String| {
+        c.violation(format!("C19:bounds:{class}"), what.clone(), json!({"case_seed": case_seed, "input": src, "derive": name, "expected_bounded": expected, "failure": what}));
+    };
+    let ts = match catch(|| (tr.derive())(&di)) {
+        Caught::Ok(ts) => ts,
+        Caught::Panic { msg, loc } => {
+            fail(c, &format!("panic:{}", vfcommon::short_loc(&loc)), format!("derive({name}) panicked on `{src}`: {msg}"));
+            return;
+        }
+    };
+    let cl = match classify(ts, name) {
+        Ok(cl) => cl,
+        Err(e) => {
+            fail(c, "unparsable-output", format!("derive({name}) on `{src}`: {e}"));
+            return;
+        }
+    };
+    if cl.impls.len() != 1 {
+        // a declaration the derive rejects is C10's business; the generator only emits accepted ones
+        fail(c, "no-impl", format!("derive({name}) on `{src}` emitted {} impls, diagnostics {:?}", cl.impls.len(), cl.errors));
+        return;
+    }
+    let im = &cl.impls[0];
+    // generics: same parameters in the same order; type params carry their own bounds plus at most the one added bound
+    let got: Vec<&syn::GenericParam> = im.generics.params.iter().collect();
+    if got.len() != params.len() {
+        fail(c, "param-count", format!("`{src}`: impl has {} generic parameters, the receiver {}", got.len(), params.len()));
+    } else {
+        let mut bounded: BTreeSet<String> = BTreeSet::new();
+        for (g, p) in got.iter().zip(params.iter()) {
+            match (g, p.kind) {
+                (syn::GenericParam::Lifetime(l), 0) => {
+                    if l.lifetime.to_string() != p.name {
+                        fail(c, "param-changed", format!("`{src}`: lifetime `{}` became `{}`", p.name, l.lifetime));
+                    }
+                }
+                (syn::GenericParam::Const(k), 2) => {
+                    if k.ident != p.name {
+                        fail(c, "param-changed", format!("`{src}`: const param `{}` became `{}`", p.name, k.ident));
+                    }
+                }
+                (syn::GenericParam::Type(t), 1) => {
+                    if t.ident != p.name {
+                        fail(c, "param-changed", format!("`{src}`: type param `{}` became `{}`", p.name, t.ident));
+                    }
+                    let gb: Vec<String> = t.bounds.iter().map(canon_of).collect();
+                    let own: Vec<String> = p.bounds.iter().map(|b| crate::tok::canon_str(b).unwrap_or_default()).collect();
+                    if gb.len() < own.len() || gb[..own.len()] != own[..] {
+                        fail(c, "own-bounds-changed", format!("`{src}`: bounds of `{}` are {:?}, declared {:?}", p.name, gb, own));
+                    } else {
+                        let extra = &gb[own.len()..];
+                        match extra.len() {
+                            0 => {}
+                            1 if extra[0].replace(' ', "").ends_with("::darling::FromMeta") || extra[0].replace(' ', "") == "::darling::FromMeta" => {
+                                bounded.insert(p.name.clone());
+                            }
+                            _ => fail(c, "unexpected-extra-bound", format!("`{src}`: `{}` got extra bounds {:?}", p.name, extra)),
+                        }
+                    }
+                }
+                _ => fail(c, "param-kind-changed", format!("`{src}`: parameter `{}` changed kind", p.name)),
+            }
+        }
+        if bounded != expected {
+            let class = if bounded.difference(&expected).next().is_some() { "bound-on-unused-or-skipped-param" } else { "bound-missing" };
+            fail(c, class, format!("derive({name}) on `{src}`: FromMeta bound added to {bounded:?}, the parsed fields use {expected:?}"));
+        }
+    }
+    // where-clause unchanged
+    let want_where = crate::tok::canon_str(where_clause.trim()).unwrap_or_default();
+    let got_where = im.generics.where_clause.as_ref().map(canon_of).unwrap_or_default();
+    if want_where != got_where {
+        fail(c, "where-clause-changed", format!("`{src}`: where-clause `{got_where}`, declared `{want_where}`"));
+    }
+    // self type names every parameter
+    let self_ty = canon_of(&im.self_ty);
+    let want_self = if params.is_empty() { "Recv ".to_string() } else { crate::tok::canon_str(&format!("Recv<{}>", params.iter().map(|p| p.name.clone()).collect::<Vec<_>>().join(", "))).unwrap_or_default() };
+    if self_ty != want_self {
+        fail(c, "self-type", format!("`{src}`: impl is for `{self_ty}`, expected `{want_self}`"));
+    }
+    c.count(&format!("derive.{name}"));
+    c.count(if is_enum { "body.enum" } else { "body.struct" });
+    c.count_n("bounded_params", expected.len() as u64);
+    let fv: Vec<_> = forms.iter().collect();
+    c.nontrivial(&(tr, fv, expected.len(), declared.len(), !where_clause.is_empty()));
+    if c.samples.len() < c.max_samples && case_seed % 3001 == 0 {
+        c.sample(|| json!({"input": src, "derive": name, "expected_bounded": expected, "impl_generics": canon_of(&im.generics)}));
+    }
+}
+
+fn run_bounds(args: &Args) -> i32 {
+    let started = Instant::now();
+    if let Some(p) = &args.replay {
+        let v: serde_json::Value = serde_json::from_str(&std::fs::read_to_string(p).unwrap_or_default()).unwrap_or_default();
+        let seed = v["witness"]["case_seed"].as_u64().unwrap_or_else(|| vfcommon::die("replay file has no case_seed"));
+        let mut c = Collector::new();
+        bounds_case(seed, &mut c);
+        c.nontrivial(&0u8);
+        c.nontrivial(&1u8);
+        return conclude(args, started, c, bounds_outcome(0));
+    }
+    let total = args.budget(40_000, 2_000_000);
+    let c = fan_out(args, 191, total, |_, rng, share, c| {
+        for i in 0..share {
+            if i % 512 == 0 {
+                proc_macro2::extra::invalidate_current_thread_spans();
+            }
+            let cs = rng.next_u64();
+            bounds_case(cs, c);
+        }
+    });
+    conclude(args, started, c, bounds_outcome(300))
+}
+
+fn bounds_outcome(min: u64) -> Outcome {
+    Outcome {
+        level: "exploration",
+        rule: "generic receivers (0..2 lifetimes, 0..4 type params with own bounds / defaults, optional const param and where-clause; struct or FromMeta enum bodies; fields whose types are built from the planted-type grammar; skip / skip=true / skip=false, skipped variants, magic fields, with / default / multiple / map) for all six derives; the emitted impl block is parsed: same parameters in order, own bounds intact, exactly the declared type params used by parsed fields carry one extra ::darling::FromMeta bound, where-clause and self type unchanged. Distinct = (trait, type forms, #bounded, #declared, where-clause?).".into(),
+        assumptions: vec!["`bound = \"..\"` is parsed but unused by code generation on the pinned tree and is not generated (DESIGN §4)".into()],
         min_nontrivial: min,
         exhaustive: None,
         extra: Default::default(),
